@@ -451,7 +451,7 @@ for st, n in (("nocheck", 0), ("check", 1)):
        stubs=["chess_lookup::between", "chess_lookup::line", "chess_lookup::pawn_moves", "chess_lookup::rook_moves", "chess_lookup::bishop_moves", "BitBoard::pop -> one-shot abstraction (three pawn loops incl. en passant)"],
        functions=["<Pawn as PieceType>::legals::<%s>" % ("IN_CHECK" if n else "NO_CHECK"), "Pawn::pseudo_legals", "check_mask"],
        contract=_INV + " with %d checker(s), any mask, every e.p. file or none: for an ARBITRARY pawn picked by each of the three loops (unpinned, pinned, en-passant capturers) and EVERY destination d and promotion choice: generated exactly once iff legal and masked (en passant decided by make-move: both pawns leave, king tested); promotion flag iff the pawn stands on its seventh rank" % n)
-ob("C01.king_position", ["C01", "C06"], "chess-movegen", _PC + "c01_king_position", kind="complete", flags="func", timeout=2400, mem_gb=6, stubs=_LK5 + ["chess_lookup::king_moves"],
+ob("C01.king_position", ["C01", "C06"], "chess-movegen", _PC + "c01_king_position", kind="complete", flags="full", timeout=2400, mem_gb=6, stubs=_LK5 + ["chess_lookup::king_moves"],
    functions=["Board::is_legal_king_position"], contract="{one king each, <= 16 per side} is_legal_king_position(dest) == dest is not attacked by the opponent once the mover's king is lifted off the board; all boards x all 64 squares (real 16-fold slider loop)")
 for st in ("nocheck", "check"):
     ob("C01.king." + st, ["C01"], "chess-movegen", _PC + "c01_king_" + st, kind="complete", flags="func", timeout=2400, mem_gb=6, part=(0 if st == "nocheck" else 1), stubs=["chess_lookup::king_moves", "Board::is_legal_king_position -> contract stub (C01.king_position)"],
@@ -550,7 +550,7 @@ for _o in OBLIGATIONS:
         _o.setdefault("prop_tiers", {})["C07"] = "thorough"
 
 # properties whose checks are still being brought up are not claimed in MANIFEST.json until they pass on the unchanged tree
-for _p in ("C01", "C05", "C06"):
+for _p in ():
     PROPERTY_META[_p]["claim"] = False
 
 # C01 quick-tier partition into four slices (each body obligation costs 8-12 min and 5-15 GB)
